@@ -539,6 +539,9 @@ func genHopeless(r *rng, c genCfg) *scenario {
 	}
 	if t.Form == "pos" {
 		dead.Name = ""
+	} else if r.chance(1, 5) {
+		// a subtype with characters that mean something to a formatter: the message must still mention the argument
+		dead.Sub = []string{"pkg%2FMessage", "100%d", "%s"}[r.intn(3)]
 	}
 	t.Ins = append(t.Ins, dead)
 	switch r.intn(4) {
